@@ -207,7 +207,7 @@ def main():
                 R.violation({'kind': 'GenDfa.v does not compile', 'log': (o + e)[-3000:]}, no_input=True)
                 return R.finish()
     types = [t for t in RULES if t in dfas]
-    n_val = 30000 if thorough else 2500
+    n_val = 150000 if thorough else 2500
     n_coq = 300
     strings = {t: sample_strings(dfas[t], random.Random(rnd.random()), n_val) for t in types}
     coq_samples = {}
@@ -285,7 +285,7 @@ def main():
             tk = tokens_of(dfas[t], b)
             if tk is not None and dfa_run(dfas[t], tk):
                 olines.append('out\t%s\t%s' % (t, hexs(b))); ometa.append((t, b)); k += 1
-                if k >= (3000 if thorough else 300):
+                if k >= (15000 if thorough else 300):
                     break
     oouts = run_lines(os.path.join(cdir, 'harness'), olines)
     for (t, b), o in zip(ometa, oouts):
